@@ -1535,25 +1535,33 @@ def _noneness(e) -> Optional[bool]:
     return None
 
 
+def _truthiness(e) -> Optional[bool]:
+    if isinstance(e, ast.Constant):
+        return bool(e.value)
+    return None
+
+
 def thread_none_tests(fn_node) -> int:
     """``if c: ..; v = None  else: ..; v = (a, b)`` directly followed by ``if v is not None: S1 [else: S2]``: the second test
     is decided on every path of the first statement, so S1 / S2 move to the ends of those paths (and ``return v`` right
-    after ``v = (a, b)`` returns the tuple).  This is what a guard-clause helper ``r = self._try(); if r is not None: return r``
-    looks like once the helper is inlined."""
+    after ``v = (a, b)`` returns the tuple).  The same for a boolean flag: ``if c: v = False else: v = <e>`` followed by
+    ``if v: S1`` - the branch that set the constant takes its side directly, the other one keeps the test.  This is what a
+    guard-clause helper (``r = self._try(); if r is not None: return r`` / a predicate with early ``return False``) looks
+    like once the helper is inlined."""
     done = 0
 
-    def leaves(stmts, var):
-        """-> list of (block, kind) with kind in {True(None), False(not None), 'exit'} or None if undecidable"""
+    def leaves(stmts, var, decide):
+        """-> list of (block, kind) with kind in {True, False, 'exit', 'keep'} or None if the shape is not recognised"""
         if not stmts:
             return None
         last = stmts[-1]
         if isinstance(last, (ast.Return, ast.Raise, ast.Continue, ast.Break)):
             return [(stmts, "exit")]
         if isinstance(last, ast.Assign) and len(last.targets) == 1 and isinstance(last.targets[0], ast.Name) and last.targets[0].id == var:
-            k = _noneness(last.value)
-            return None if k is None else [(stmts, k)]
+            k = decide(last.value)
+            return [(stmts, "keep" if k is None else k)]
         if isinstance(last, ast.If) and last.orelse:
-            a, b = leaves(last.body, var), leaves(last.orelse, var)
+            a, b = leaves(last.body, var, decide), leaves(last.orelse, var, decide)
             return None if a is None or b is None else a + b
         return None
 
@@ -1569,22 +1577,35 @@ def thread_none_tests(fn_node) -> int:
                 if not (isinstance(a, ast.If) and a.orelse and isinstance(b, ast.If)):
                     continue
                 t = b.test
-                if not (isinstance(t, ast.Compare) and len(t.ops) == 1 and isinstance(t.ops[0], (ast.Is, ast.IsNot)) and isinstance(t.left, ast.Name)
+                neg = False
+                while isinstance(t, ast.UnaryOp) and isinstance(t.op, ast.Not):
+                    t, neg = t.operand, not neg
+                if (isinstance(t, ast.Compare) and len(t.ops) == 1 and isinstance(t.ops[0], (ast.Is, ast.IsNot)) and isinstance(t.left, ast.Name)
                         and isinstance(t.comparators[0], ast.Constant) and t.comparators[0].value is None):
+                    var, decide, allow_keep = t.left.id, _noneness, False
+                    # kind True = "is None" holds
+                    positive_is_body = isinstance(t.ops[0], ast.Is) != neg
+                elif isinstance(t, ast.Name):
+                    var, decide, allow_keep = t.id, _truthiness, True
+                    positive_is_body = not neg
+                else:
                     continue
-                var = t.left.id
-                lv = leaves([a], var)
-                if lv is None or not any(k != "exit" for _b, k in lv):
+                lv = leaves([a], var, decide)
+                if lv is None or not any(k in (True, False) for _b, k in lv):
                     continue
-                n_stmts = sum(1 for _ in ast.walk(b))
-                if n_stmts > 200:
+                if not allow_keep and any(k == "keep" for _b, k in lv):
                     continue
-                when_none, when_some = (b.body, b.orelse) if isinstance(t.ops[0], ast.Is) else (b.orelse, b.body)
+                if sum(1 for _ in ast.walk(b)) > 200:
+                    continue
                 for leaf, k in lv:
                     if k == "exit":
                         continue
-                    tail = copy.deepcopy(when_none if k else when_some)
-                    if not k and tail and isinstance(tail[0], ast.Return) and isinstance(tail[0].value, ast.Name) and tail[0].value.id == var:
+                    if k == "keep":
+                        leaf.append(copy.deepcopy(b))
+                        continue
+                    taken = b.body if (k == positive_is_body) else b.orelse
+                    tail = copy.deepcopy(taken)
+                    if decide is _noneness and not k and tail and isinstance(tail[0], ast.Return) and isinstance(tail[0].value, ast.Name) and tail[0].value.id == var:
                         tail[0].value = copy.deepcopy(leaf[-1].value)
                     leaf.extend(tail)
                 del blk[i]
